@@ -513,7 +513,16 @@ def run_cluster_layer(ctx, want):
             # the matched behaviour of the real nodes violates an invariant of the spec
             inv = tv["violated"]
             prop = "C13" if inv in ("AtMostOnce", "NeverStale", "CompleteWhileKeepingUp", "HostFilterExact") else "C06"
-            if prop == want:
+            off = tv.get("offset") or 0
+            prev_ev = s["trace"][off - 1]["ev"] if 0 < off <= len(s["trace"]) else ""
+            if prop == want and prev_ev == "recovered" and inv in ("OrderIndependence", "SameSetSameState", "TNoRegress"):
+                # the real start-up recovery committed its per-peer transactions in an order that
+                # replaced a newer operation by an older one: the RecoveryUnchecked window
+                ctx.report(WINDOW_SIG["RecoveryUnchecked"] + " (peers recovered in turn)",
+                           "scenario %s: start-up recovery of node %s ended with an operation older than one a peer had streamed (%s violated on the matched behaviour)" % (
+                               s["id"], s["trace"][off - 1].get("n"), inv),
+                           {"layer": "cluster", "scenario": s["id"], "seed": s.get("seed"), "trace": s["trace"][: off + 1]})
+            elif prop == want:
                 ctx.report("%s cluster trace violates %s" % (want, inv),
                            "scenario %s: the behaviour of the real nodes, matched step by step by AspenKVTrace, violates %s at event %s" % (s["id"], inv, tv.get("offset")),
                            {"layer": "cluster", "scenario": s["id"], "seed": s.get("seed"), "trace": s["trace"][: (tv.get("offset") or 0) + 1]})
